@@ -155,7 +155,9 @@ TXmlImport ==
        /\ (E.keepall = 1 /\ E.flags = d.srcflags) =>
              IF Bit(d.flags, XML_FLAG_V2) THEN SameTreeAndSets(d.src, t) ELSE Equivalent(d.src, t, E.flags)
        \* userdata: delivered exactly as many times, with the same name, bytes and length, as it was exported
-       /\ E.ud = 1 => E.deliv = d.deliv
+       \* (the built-in exporter runs the export callback in two identical passes, a dry run that sizes the buffer and the
+       \*  real one, so the callback-side list may be the delivered list twice)
+       /\ E.ud = 1 => (E.deliv = d.deliv \/ E.deliv \o E.deliv = d.deliv)
        /\ E.ud = 0 => E.deliv = <<>>
        /\ slots' = [slots EXCEPT ![S] = [st |-> "loaded", flags |-> E.flags, filters |-> t.filters,
                                           origin |-> [flags |-> d.flags, digest |-> d.digest, len |-> d.len, ud |-> IF d.deliv = <<>> THEN 0 ELSE 1],
